@@ -104,6 +104,14 @@ impl Outcome {
     pub fn is_pass(&self) -> bool {
         matches!(self.kind, Kind::Pass)
     }
+    /// all (signature, detail) pairs of a failing outcome
+    pub fn fail_list(&self) -> Vec<(String, String)> {
+        match &self.kind {
+            Kind::Fail { sig, detail } => vec![(sig.clone(), detail.clone())],
+            Kind::FailMany(v) => v.clone(),
+            _ => vec![],
+        }
+    }
     pub fn fail_sig(&self) -> Option<&str> {
         match &self.kind {
             Kind::Fail { sig, .. } => Some(sig),
